@@ -13,6 +13,7 @@
  *   count | nranges | dump | hosts LIMIT | shift | pop | nth N | push HEX | find HEX |
  *   delete HEX | delete_host HEX | delete_nth N | uniq | sort | ranged N | deranged N |
  *   it_new | it_next K | it_remove K | it_reset K | it_free K
+ *   ptext | psweep | pexact | pback | pmk        (C14, see hl_print_ops.h)
  *
  * status:  ok | null:<errno class>:<fatal class>      errno class: 0 EINVAL ERANGE E<n>
  * fatal class (what reached lsd_fatal_error): - invalid toomany other
@@ -382,6 +383,8 @@ static void fprobe(const char *expr, long limit, long cpums)
     free(e);
 }
 
+#include "hl_print_ops.h"      /* C14: ptext psweep pexact pback pmk */
+
 #define NIT 16
 
 int main(int argc, char **argv)
@@ -435,7 +438,18 @@ int main(int argc, char **argv)
             else printf("ok %d %d\n", hostlist_count(hl), hl->nranges);
             continue;
         }
+        if (!strcmp(op, "pmk")) {                       /* C14: raw record list */
+            int k;
+            for (k = 0; k < NIT; k++) its[k] = NULL;
+            if (hl) hostlist_destroy(hl);
+            hl = p_mk(line);
+            if (!hl) printf("bad-arg\n");
+            else printf("ok %d %d\n", hostlist_count(hl), hl->nranges);
+            continue;
+        }
         if (!hl) { printf("no-list\n"); continue; }
+        if (print_op(hl, op, line))                     /* C14 */
+            continue;
         if (!strcmp(op, "count")) {
             printf("%d\n", hostlist_count(hl));
         } else if (!strcmp(op, "nranges")) {
